@@ -17,6 +17,8 @@ F_DUP = "C10-cacheclear-unflushed"
 F_LIT = "C10-regex-literal-overwrites-filter-value"
 F_STALE = "C10-tagfilter-cache-stale-after-background-flush"
 F_IN = "C10-in-predicate-ignored-on-showseries-path"
+F_TT = "C10-tag-vs-tag-compares-presence"
+F_TXT = "C10-show-series-text-unescaped"
 BASE = (1 << 40) | 1000          # logical clock 1, sequence 1000: the harness' initial generator value
 
 
@@ -109,6 +111,10 @@ def expr_coq(x, it, choose):
 
 
 TRUE_EXPR = "(Or (Atom 1 Eq 0) (Atom 1 Neq 0))"        # true of every tag set (key 1 is interned as "host" by the callers)
+
+
+def has_tagtag(x):
+    return x is not None and any(a["o"] in ("teq", "tneq") for a in atoms_of(x, []))
 
 
 def has_in(x):
@@ -237,6 +243,8 @@ def case_coq(c, it_factory=Intern):
             ops.append("CClear")
         elif k == "reopen":
             ops.append("CReopen %d" % o.get("bump", 0))
+        elif k in ("query", "clist") and has_tagtag(o.get("expr")):
+            ops.append("CNop")        # tag = tag comparisons are outside the model: direct oracle only
         elif k == "query":
             x = o.get("expr")
             m = it.str(o["mst"])
@@ -434,8 +442,17 @@ def sources_of_failure(cv, f, classes, cr_current):
         same = [b for b in dups if ops[b]["mst"] == ops[opi]["mst"] and (ops[b].get("tags") or []) == (ops[opi].get("tags") or [])]
         src.add(F_DUP if same else None)
         return src
+    if kind == "listing-text":
+        # decided by the harness on the written keys alone: a listed key with ',' or '=' inside a name, rendered without escaping
+        src.add(F_TXT)
+        return src
     if kind in ("listing-series", "listing-keys", "listing-values", "listing-vcard"):
         src.add(F_DUP if dups else None)
+        return src
+    if kind in ("search-not-bruteforce", "cardinality", "listing-cond-series", "listing-cond-values") and has_tagtag(c["ops"][opi].get("expr")):
+        # a comparison of two tags is evaluated as "both tags present" / "first present, second absent" (select path) or as a
+        # comparison with the other tag's NAME as a literal (show-series path): any failure of such a predicate is that finding
+        src.add(F_TT)
         return src
     if kind in ("search-not-bruteforce", "cardinality", "listing-cond-series", "listing-cond-values"):
         if kind != "search-not-bruteforce":
@@ -471,6 +488,9 @@ def sources_of_failure(cv, f, classes, cr_current):
 
 
 WHAT = {
+    "C10-show-series-text-unescaped": "SHOW SERIES renders a key without escaping: a ',' or '=' inside a measurement / tag key / tag value makes the text read as another key",
+    "C10-tag-vs-tag-compares-presence": "a predicate tag1 = tag2 / tag1 != tag2 never compares the two values (select path: presence of the tags; "
+                                        "show-series path: tag1 against the NAME of tag2)",
     "C10-in-predicate-ignored-on-showseries-path": "show-series / drop-series path: tag IN (..) / NOT IN (..) is answered with every series of the measurement "
                                                    "(DROP SERIES ... WHERE tag IN ('nosuch') drops them all)",
     "C10-tagfilter-cache-stale-after-background-flush": "select path: after the index table's periodic flush the tag-filter result cache keeps answering "
@@ -643,7 +663,7 @@ def main(ck):
                 # reduces to a pure literal (tf.value is overwritten), else the pattern's source text
                 for p, l in zip(patlist, lits):
                     keytext[p] = "".join(chr(x) for x in l) if l is not None else p
-    stale = {F_ANCH, F_EXPL, F_ESC, F_NIL, F_DUP, F_LIT, F_STALE, F_IN}
+    stale = {F_ANCH, F_EXPL, F_ESC, F_NIL, F_DUP, F_LIT, F_STALE, F_IN, F_TXT}
     nviol = 0
     tree_regex_current = False
     if ok:
